@@ -18,7 +18,7 @@ Record teq (a b : tables) : Prop := mk_teq {
   teq_enums : forall k, lookup k (enums a) = lookup k (enums b);
   teq_dtors : forall k, lookup k (dtors a) = lookup k (dtors b);
   teq_impls : forall s, impls_of s (impls a) = impls_of s (impls b);      (* impl blocks of each struct, in order *)
-  teq_ctors : forall s, ctors_of s (ctors a) = ctors_of s (ctors b);      (* struct_constructors_[s] *)
+  teq_ctors : forall s n, find_ctor s n (ctors a) = find_ctor s n (ctors b);   (* constructor chosen for (struct, arity) *)
   teq_statics : forall x, In x (istatics a) <-> In x (istatics b);
   teq_loaded : forall p, mem p (loaded a) = mem p (loaded b)
 }.
@@ -63,7 +63,7 @@ Proof.
   - now rewrite andb_false_r.
 Qed.
 Lemma teq_find_ctor : forall a b, teq a b -> forall s n, find_ctor s n (ctors a) = find_ctor s n (ctors b).
-Proof. intros a b H s n. rewrite find_ctor_sub, (find_ctor_sub s n (ctors b)). now rewrite (teq_ctors _ _ H). Qed.
+Proof. intros a b H. exact (teq_ctors _ _ H). Qed.
 Lemma teq_has_impl : forall a b, teq a b -> forall i s, has_impl i s (impls a) = has_impl i s (impls b).
 Proof. intros a b H i s. rewrite has_impl_sub, (has_impl_sub i s (impls b)). now rewrite (teq_impls _ _ H). Qed.
 
@@ -166,15 +166,25 @@ Proof.
   - now rewrite !lookup_bind_neq.
 Qed.
 
-Lemma ctors_of_app : forall s a b, ctors_of s (a ++ b) = ctors_of s a ++ ctors_of s b.
-Proof. intros. unfold ctors_of. apply filter_app. Qed.
+Lemma find_ctor_app : forall s n l s' a b,
+  find_ctor s n (l ++ [(s', (a, b))]) =
+  match find_ctor s n l with
+  | Some v => Some v
+  | None => if String.eqb s s' && Nat.eqb n a then Some b else None
+  end.
+Proof.
+  induction l as [|[s0 [a0 b0]] l IH]; intros; simpl; [reflexivity|].
+  destruct (String.eqb s s0 && Nat.eqb n a0); [reflexivity|apply IH].
+Qed.
 
 Lemma apply_congr : forall o a b, teq a b -> req (apply_op a o) (apply_op b o).
 Proof.
   intros o a b H. pose proof H as [Hf Hs Hi Ht Hv He Hd Him Hc Hst Hl].
   destruct o;
     try (simpl; constructor; simpl; intros; auto using lookup_bind_congr; fail).
-  - (* OCtor *) simpl. constructor; simpl; intros; auto. rewrite !ctors_of_app. now rewrite Hc.
+  - (* OEnum *) simpl. rewrite He. destruct (lookup k (enums b)); [exact H|].
+    constructor; simpl; intros; auto using lookup_bind_congr.
+  - (* OCtor *) simpl. constructor; simpl; intros; auto. rewrite !find_ctor_app. now rewrite Hc.
   - (* OImpl *)
     pose proof (impl_step_congr (impls a) (impls b) d Him) as L.
     destruct (impl_step (impls a) d) as [la|] eqn:Ea, (impl_step (impls b) d) as [lb|] eqn:Eb; try tauto.
@@ -199,12 +209,12 @@ Lemma req_run_congr : forall ops r1 r2, req r1 r2 ->
 Proof. intros ops [a|e1] [b|e2] H; simpl in *; try tauto. now apply run_congr. Qed.
 
 (* ---------- footprints and commutation *)
-Inductive ftag := FMap (g : tag) | FImpl | FCtor.
+Inductive ftag := FMap (g : tag) | FImpl | FCtor (arity : nat).
 Definition foot (o : op) : list (ftag * name) :=
   map (fun x => (FMap (fst x), snd x)) (op_writes o) ++
   match o with
   | OImpl d => [(FImpl, im_struct d)]
-  | OCtor s _ _ => [(FCtor, s)]
+  | OCtor s a _ => [(FCtor a, s)]
   | _ => []
   end.
 Definition indep (o1 o2 : op) : Prop := forall x, In x (foot o1) -> ~ In x (foot o2).
@@ -244,7 +254,7 @@ Qed.
 Definition simple (o : op) : Prop := match o with OImpl _ | OFail _ => False | _ => True end.
 
 Lemma simple_ok : forall o t, simple o -> exists t', apply_op t o = Ok t' /\ impls t' = impls t.
-Proof. intros o t H. destruct o; simpl in H; try tauto; simpl; eauto. Qed.
+Proof. intros o t H. destruct o; simpl in H; try tauto; simpl; eauto. destruct (lookup k (enums t)); eauto. Qed.
 
 Lemma foot_writes : forall o g k, In (g, k) (op_writes o) -> In (FMap g, k) (foot o).
 Proof.
@@ -256,21 +266,37 @@ Qed.
 Lemma comm_fail : forall e o t, req (run_ops [OFail e; o] t) (run_ops [o; OFail e] t).
 Proof. intros. simpl. destruct (apply_op t o); exact Logic.I. Qed.
 
+Lemma comm_enum_simple : forall k ms o t, simple o -> indep (OEnum k ms) o ->
+  req (run_ops [OEnum k ms; o] t) (run_ops [o; OEnum k ms] t).
+Proof.
+  intros k ms o t S I.
+  destruct o; simpl in S; try tauto;
+    try (simpl; destruct (lookup k (enums t)) eqn:EL; simpl; rewrite ?EL; apply teq_refl).
+  assert (N : k <> k0). { intro; subst. eapply (I (FMap TE, k0)); apply foot_writes; simpl; auto. }
+  assert (N' : k0 <> k) by auto.
+  simpl. destruct (lookup k (enums t)) eqn:E1; destruct (lookup k0 (enums t)) eqn:E2; simpl;
+    rewrite ?E1, ?E2, ?lookup_bind_neq by auto; rewrite ?E1, ?E2; try apply teq_refl.
+  constructor; simpl; intros; try reflexivity; try tauto. apply bind_bind_comm. auto.
+Qed.
+
 Lemma comm_simple_simple : forall o1 o2 t, simple o1 -> simple o2 -> indep o1 o2 ->
   req (run_ops [o1; o2] t) (run_ops [o2; o1] t).
 Proof.
   intros o1 o2 t S1 S2 I.
-  destruct o1; simpl in S1; try tauto; destruct o2; simpl in S2; try tauto; simpl;
+  destruct o1; simpl in S1; try tauto; try (apply comm_enum_simple; assumption);
+    destruct o2; simpl in S2; try tauto;
+    try (apply req_sym, comm_enum_simple; [exact Logic.I|apply indep_sym; assumption]); simpl;
     try (apply teq_refl);
     try (constructor; simpl; intros; try reflexivity; try tauto;
          apply bind_bind_comm; intro; subst;
          eapply I; [apply foot_writes; simpl; left; reflexivity|apply foot_writes; simpl; left; reflexivity]).
   - (* OCtor / OCtor *)
     constructor; simpl; intros; try reflexivity; try tauto.
-    rewrite !ctors_of_app. simpl.
-    destruct (String.eqb s s1) eqn:E1, (String.eqb s0 s1) eqn:E2; simpl; rewrite ?app_nil_r; try reflexivity.
-    apply String.eqb_eq in E1, E2. subst. exfalso.
-    eapply (I (FCtor, s1)); unfold foot; simpl; auto.
+    rewrite !find_ctor_app. destruct (find_ctor s1 n (ctors t)); [reflexivity|].
+    destruct (String.eqb s1 s && Nat.eqb n arity) eqn:E1, (String.eqb s1 s0 && Nat.eqb n arity0) eqn:E2; try reflexivity.
+    apply andb_true_iff in E1, E2. destruct E1 as [E1 F1], E2 as [E2 F2].
+    apply String.eqb_eq in E1, E2. apply Nat.eqb_eq in F1, F2. subst. exfalso.
+    eapply (I (FCtor arity0, s0)); unfold foot; simpl; auto.
   - (* OStatic / OStatic *) constructor; simpl; intros; try reflexivity; tauto.
   - (* OLoaded / OLoaded *)
     constructor; simpl; intros; try reflexivity; try tauto.
@@ -288,10 +314,15 @@ Proof.
   destruct (impl_step (impls t) d) as [l'|] eqn:E.
   - remember (OImpl d) as oi eqn:Hoi.
     destruct o; simpl in S; try tauto;
-      cbn [run_ops apply_op]; subst oi; rewrite (apply_impl_some _ _ _ E);
+      try (cbn [run_ops apply_op]; subst oi; rewrite (apply_impl_some _ _ _ E);
       (erewrite apply_impl_some; [|cbn [impls set_funcs]; exact E]);
       cbn [apply_op req set_funcs set_impls funcs structs ifaces typedefs vars enums impls ctors dtors istatics loaded];
-      try apply teq_refl.
+      try apply teq_refl).
+    2:{ (* OEnum *)
+      cbn [run_ops apply_op]; subst oi; rewrite (apply_impl_some _ _ _ E).
+      cbn [set_funcs set_impls enums]. destruct (lookup k (enums t)) eqn:EL.
+      - rewrite (apply_impl_some _ _ _ E). apply teq_refl.
+      - erewrite apply_impl_some by (cbn [impls]; exact E). apply teq_refl. }
     constructor; cbn [set_funcs set_impls funcs structs ifaces typedefs vars enums impls ctors dtors istatics loaded];
       intros; try reflexivity; try tauto.
     apply bind_all_bind_comm. eapply Hk. reflexivity.
@@ -370,22 +401,29 @@ Proof.
 Qed.
 
 (* ---------- lifting to lists of steps *)
+(* two steps are compatible if they are the very same step (the same impl block reaching the
+   interpreter through two importers of a common module - a diamond) or touch different names *)
+Definition compat (o1 o2 : op) : Prop := o1 = o2 \/ indep o1 o2.
+
+Lemma comm_compat : forall o1 o2 t, compat o1 o2 -> req (run_ops [o1; o2] t) (run_ops [o2; o1] t).
+Proof. intros o1 o2 t [->|H]; [apply req_refl|now apply comm_two]. Qed.
+
 Lemma run_cons : forall o ops t,
   run_ops (o :: ops) t = match apply_op t o with Ok t' => run_ops ops t' | Err e => Err e end.
 Proof. reflexivity. Qed.
 
-Lemma swap_adjacent : forall o1 o2 rest t, indep o1 o2 ->
+Lemma swap_adjacent : forall o1 o2 rest t, compat o1 o2 ->
   req (run_ops (o1 :: o2 :: rest) t) (run_ops (o2 :: o1 :: rest) t).
 Proof.
   intros. change (o1 :: o2 :: rest) with ([o1; o2] ++ rest). change (o2 :: o1 :: rest) with ([o2; o1] ++ rest).
-  rewrite !run_ops_app. apply req_run_congr. now apply comm_two.
+  rewrite !run_ops_app. apply req_run_congr. now apply comm_compat.
 Qed.
 
 Lemma req_cons : forall o a b,
   (forall t, req (run_ops a t) (run_ops b t)) -> forall t, req (run_ops (o :: a) t) (run_ops (o :: b) t).
 Proof. intros. simpl. destruct (apply_op t o); [apply H|exact Logic.I]. Qed.
 
-Lemma move_one : forall o ops2 rest, (forall o2, In o2 ops2 -> indep o o2) ->
+Lemma move_one : forall o ops2 rest, (forall o2, In o2 ops2 -> compat o o2) ->
   forall t, req (run_ops (o :: ops2 ++ rest) t) (run_ops (ops2 ++ o :: rest) t).
 Proof.
   induction ops2 as [|o2 ops2 IH]; intros rest H t; simpl app.
@@ -395,7 +433,7 @@ Proof.
 Qed.
 
 Lemma swap_blocks : forall ops1 ops2 rest,
-  (forall o1 o2, In o1 ops1 -> In o2 ops2 -> indep o1 o2) ->
+  (forall o1 o2, In o1 ops1 -> In o2 ops2 -> compat o1 o2) ->
   forall t, req (run_ops (ops1 ++ ops2 ++ rest) t) (run_ops (ops2 ++ ops1 ++ rest) t).
 Proof.
   induction ops1 as [|o ops1 IH]; intros ops2 rest H t; simpl app.
@@ -408,16 +446,20 @@ Qed.
 (* ---------- import lists *)
 Definition footprint (fuel : nat) (fs : fsys) (p : name) : list (ftag * name) :=
   flat_map foot (path_ops fuel fs p).
-(* modules that bind disjoint names (impl blocks and constructors: for different structs) *)
+(* modules that bind disjoint names (impl blocks: for different structs; constructors: for different
+   (struct, arity)) *)
 Definition independent (fuel : nat) (fs : fsys) (l : list name) : Prop :=
   forall p q, In p l -> In q l -> p <> q ->
   forall x, In x (footprint fuel fs p) -> ~ In x (footprint fuel fs q).
+(* weaker: any two registration steps of two different modules are identical or touch different names *)
+Definition compatible (fuel : nat) (fs : fsys) (l : list name) : Prop :=
+  forall p q, In p l -> In q l -> p <> q ->
+  forall o1 o2, In o1 (path_ops fuel fs p) -> In o2 (path_ops fuel fs q) -> compat o1 o2.
 
-Lemma independent_ops : forall fuel fs p q,
-  (forall x, In x (footprint fuel fs p) -> ~ In x (footprint fuel fs q)) ->
-  forall o1 o2, In o1 (path_ops fuel fs p) -> In o2 (path_ops fuel fs q) -> indep o1 o2.
+Lemma independent_compatible : forall fuel fs l, independent fuel fs l -> compatible fuel fs l.
 Proof.
-  intros fuel fs p q H o1 o2 H1 H2 x Hx1 Hx2. apply (H x); unfold footprint; apply in_flat_map; eauto.
+  intros fuel fs l H p q Hp Hq Hne o1 o2 H1 H2. right. intros x Hx1 Hx2.
+  apply (H p q Hp Hq Hne x); unfold footprint; apply in_flat_map; eauto.
 Qed.
 
 Lemma load_is_run : forall fuel fs l t, NoDup l -> (forall p, In p l -> mem p (loaded t) = false) ->
@@ -431,7 +473,7 @@ Proof.
   destruct (String.eqb_spec q p); [subst; tauto|reflexivity].
 Qed.
 
-Lemma perm_blocks : forall fuel fs l1 l2, Permutation l1 l2 -> NoDup l1 -> independent fuel fs l1 ->
+Lemma perm_blocks : forall fuel fs l1 l2, Permutation l1 l2 -> NoDup l1 -> compatible fuel fs l1 ->
   forall rest t, req (run_ops (flat_map (path_ops fuel fs) l1 ++ rest) t)
                      (run_ops (flat_map (path_ops fuel fs) l2 ++ rest) t).
 Proof.
@@ -442,15 +484,15 @@ Proof.
     apply IHP; [now inversion N|]. intros p q Hp Hq. apply I; now right.
   - simpl. rewrite <- !app_assoc. apply swap_blocks.
     inversion N as [|? ? N1 N2]; subst. inversion N2; subst.
-    apply independent_ops. apply I; simpl; auto. intro; subst. apply N1. now left.
+    apply I; simpl; auto. intro; subst. apply N1. now left.
   - eapply req_trans; [apply IHP1; assumption|]. apply IHP2.
     + eapply Permutation_NoDup; eauto.
     + intros p q Hp Hq. apply I; (eapply Permutation_in; [apply Permutation_sym; exact P1|assumption]).
 Qed.
 
-Lemma import_order_independent_l : forall fuel fs l1 l2 t,
+Lemma import_order_compatible_l : forall fuel fs l1 l2 t,
   Permutation l1 l2 -> NoDup l1 -> (forall p, In p l1 -> mem p (loaded t) = false) ->
-  independent fuel fs l1 ->
+  compatible fuel fs l1 ->
   req (load fuel fs l1 t) (load fuel fs l2 t).
 Proof.
   intros fuel fs l1 l2 t P N U I.
@@ -459,4 +501,82 @@ Proof.
   - pose proof (perm_blocks fuel fs l1 l2 P N I [] t) as H. now rewrite !app_nil_r in H.
   - eapply Permutation_NoDup; eauto.
   - intros p Hp. apply U. eapply Permutation_in; [apply Permutation_sym; exact P|assumption].
+Qed.
+
+Lemma import_order_independent_l : forall fuel fs l1 l2 t,
+  Permutation l1 l2 -> NoDup l1 -> (forall p, In p l1 -> mem p (loaded t) = false) ->
+  independent fuel fs l1 ->
+  req (load fuel fs l1 t) (load fuel fs l2 t).
+Proof. intros. apply import_order_compatible_l; auto using independent_compatible. Qed.
+
+Lemma equal_tables_answer_alike_l : forall a b, teq a b ->
+  (forall g k, tlookup g k a = tlookup g k b) /\
+  (forall s n, find_ctor s n (ctors a) = find_ctor s n (ctors b)) /\
+  (forall i s, has_impl i s (impls a) = has_impl i s (impls b)) /\
+  (forall s, impls_of s (impls a) = impls_of s (impls b)) /\
+  (forall p, mem p (loaded a) = mem p (loaded b)).
+Proof.
+  intros a b H. repeat split.
+  - exact (teq_tlookup a b H).
+  - exact (teq_find_ctor a b H).
+  - exact (teq_has_impl a b H).
+  - exact (teq_impls a b H).
+  - exact (teq_loaded a b H).
+Qed.
+
+(* ---------- a decidable sufficient check of [compatible], for concrete file systems *)
+Definition option_eq_dec {A} (d : forall a b : A, {a = b} + {a <> b}) : forall a b : option A, {a = b} + {a <> b}.
+Proof. decide equality. Defined.
+Definition prod_eq_dec {A B} (da : forall a b : A, {a = b} + {a <> b}) (db : forall a b : B, {a = b} + {a <> b})
+  : forall a b : A * B, {a = b} + {a <> b}.
+Proof. decide equality. Defined.
+Definition member_eq_dec : forall a b : member, {a = b} + {a <> b}.
+Proof. decide equality; [apply (option_eq_dec Nat.eq_dec)|apply string_dec]. Defined.
+Definition sdef_eq_dec : forall a b : sdef, {a = b} + {a <> b}.
+Proof. decide equality; [apply (list_eq_dec member_eq_dec)|apply bool_dec]. Defined.
+Definition impl_eq_dec : forall a b : impl_def, {a = b} + {a <> b}.
+Proof.
+  decide equality; try apply string_dec.
+  - apply (list_eq_dec string_dec).
+  - apply (option_eq_dec Nat.eq_dec).
+  - apply (list_eq_dec (prod_eq_dec Nat.eq_dec Nat.eq_dec)).
+  - apply (list_eq_dec (prod_eq_dec string_dec Nat.eq_dec)).
+Defined.
+Definition error_eq_dec : forall a b : error, {a = b} + {a <> b}.
+Proof. decide equality; apply string_dec. Defined.
+Definition op_eq_dec : forall a b : op, {a = b} + {a <> b}.
+Proof.
+  decide equality; try apply string_dec; try apply Nat.eq_dec; try apply bool_dec.
+  - apply sdef_eq_dec.
+  - apply (list_eq_dec string_dec).
+  - apply (option_eq_dec Nat.eq_dec).
+  - apply (list_eq_dec (prod_eq_dec string_dec Nat.eq_dec)).
+  - apply impl_eq_dec.
+  - apply error_eq_dec.
+Defined.
+Definition ftag_eq_dec : forall a b : ftag, {a = b} + {a <> b}.
+Proof. decide equality; [apply tag_eq_dec|apply Nat.eq_dec]. Defined.
+Definition fk_eq_dec : forall a b : ftag * name, {a = b} + {a <> b} := prod_eq_dec ftag_eq_dec string_dec.
+
+Definition disjointb (a b : list (ftag * name)) : bool :=
+  forallb (fun x => if in_dec fk_eq_dec x b then false else true) a.
+Definition compatb (o1 o2 : op) : bool :=
+  if op_eq_dec o1 o2 then true else disjointb (foot o1) (foot o2).
+Definition compatibleb (fuel : nat) (fs : fsys) (l : list name) : bool :=
+  forallb (fun p => forallb (fun q =>
+     String.eqb p q || forallb (fun o1 => forallb (compatb o1) (path_ops fuel fs q)) (path_ops fuel fs p)) l) l.
+
+Lemma compatb_sound : forall o1 o2, compatb o1 o2 = true -> compat o1 o2.
+Proof.
+  intros o1 o2 H. unfold compatb in H. destruct (op_eq_dec o1 o2); [now left|right].
+  intros x H1 H2. unfold disjointb in H. rewrite forallb_forall in H. specialize (H x H1).
+  destruct (in_dec fk_eq_dec x (foot o2)); [discriminate|contradiction].
+Qed.
+
+Lemma compatibleb_sound : forall fuel fs l, compatibleb fuel fs l = true -> compatible fuel fs l.
+Proof.
+  intros fuel fs l H p q Hp Hq Hne o1 o2 H1 H2. unfold compatibleb in H.
+  rewrite forallb_forall in H. specialize (H p Hp). rewrite forallb_forall in H. specialize (H q Hq).
+  apply orb_true_iff in H. destruct H as [H|H]; [apply String.eqb_eq in H; contradiction|].
+  rewrite forallb_forall in H. specialize (H o1 H1). rewrite forallb_forall in H. apply compatb_sound. auto.
 Qed.
